@@ -27,7 +27,7 @@ func init() {
 		Batches:      func(tier string) int { return 16 },
 		ChildTimeout: func(string) time.Duration { return 60 * time.Minute },
 		Run: func(b *fw.B) {
-			n := fcHistories(b.Tier, 3000, 60000)
+			n := fcHistories(b.Tier, 3000, 24000)
 			maxOps := 40
 			if !fw.Quick(b.Tier) {
 				maxOps = 120
@@ -49,7 +49,7 @@ func init() {
 		Batches:      func(tier string) int { return 16 },
 		ChildTimeout: func(string) time.Duration { return 60 * time.Minute },
 		Run: func(b *fw.B) {
-			n := fcHistories(b.Tier, 2000, 60000)
+			n := fcHistories(b.Tier, 2000, 32000)
 			maxOps := 40
 			if !fw.Quick(b.Tier) {
 				maxOps = 100
@@ -78,7 +78,7 @@ func init() {
 			}
 			for i := 0; i < n && !b.Stop(); i++ {
 				b.Case("fc-history", "")
-				runFcHistory(b, catQuery, fcParams{maxOps: maxOps, withUpdates: i%2 == 0}, i)
+				runFcHistory(b, catQuery, fcParams{maxOps: maxOps, withUpdates: i%4 != 0}, i)
 			}
 		},
 		Required: []string{"q_getslot", "q_insubtree", "q_closest", "q_canonatslot", "q_canonicalchain", "q_search", "q_unknown_root", "histories_with_forks", "histories_with_prune"},
